@@ -116,5 +116,7 @@ def run(ctx):
     ctx.replay_vectors("MC_Codec", "MC_Codec.cfg", perform, "grid", classify, consts='CONSTANT Area = "pus1"',
                        need_actions=("PickVector",))
     ctx.validate_events(events(ctx), "calls", classify, shard=6000)
+    from .. import repotests
+    repotests.codec_stage(ctx, "C15")       # the calls the repository's own tests make, judged by the specification
     ctx.exhaustive = False
     ctx.extra["exhaustive_fields"] = "RequestId.unpack: all 2^16 values of octets 1-2 and all 2^16 values of octets 3-4"
